@@ -2,7 +2,7 @@
    the instance for the configuration arc_swap derives from its arguments, the
    link between an accepted trace and a schedule, and the certified checker. *)
 From Coupe Require Import Lib.Prelude Model.ArcSwap Proofs.ArcSwapCut Proofs.ArcSwapProto
-  Proofs.ArcSwapAcct Proofs.ArcSwapCaps.
+  Proofs.ArcSwapAcct Proofs.ArcSwapCaps Proofs.ArcSwapProgress.
 Open Scope Z_scope.
 
 Lemma critical_phase p v : critical_on p = Some v <-> phase_of p = PhCrit v.
@@ -280,3 +280,61 @@ Fixpoint drive (cf : config) (fuel : nat) (last : nat) (st : gstate) (acc : list
                   end
       end
   end.
+
+(* --------------------------------------------- no panic, no deadlock *)
+
+(* the side conditions on a configuration under which the machine cannot panic *)
+Record config_wf (cf : config) : Prop := {
+  cw_range : forall a u, In u (nbrs (cf_g cf) a) -> (u < length (cf_g cf))%nat;
+  cw_vw : length (cf_vw cf) = length (cf_g cf);
+  cw_k : (2 <= cf_k cf)%nat;
+  cw_chunks : forall i, (i < cf_tc cf)%nat -> (cf_ipt cf * i < length (cf_g cf))%nat;
+  cw_tc : (1 <= cf_tc cf)%nat;
+  cw_hr : forall d, cf_hr cf d (cf_tc cf) <> None
+}.
+
+Theorem arcswap_no_panic cf p0 : config_wf cf ->
+  length p0 = length (cf_g cf) -> Forall (fun x => (x < cf_k cf)%nat) p0 ->
+  init_state cf p0 <> None /\
+  forall st0 sch st, init_state cf p0 = Some st0 -> run cf st0 sch = Some st -> g_fin st = false ->
+    (forall t w, nth_opt (g_ws st) t = Some w -> w_pc w <> PDone -> step cf st t <> None)
+    /\ exists t st', step cf st t = Some st'.
+Proof.
+  intros [H1 H2 H3 H4 H5 H6] Hl Hids. split.
+  - unfold init_state. pose proof (thread_max_total cf H6 (loads (cf_vw cf) p0 (cf_k cf))) as Ht.
+    destruct (thread_max cf _); [discriminate|congruence].
+  - intros st0 sch st Hi Hr Hnf.
+    assert (Hp : pinv cf st).
+    { eapply run_pinv; [.. | exact Hr]; eauto. eapply init_pinv; eauto. }
+    split.
+    + intros t w Hw Hnd. eapply step_no_panic; eauto.
+    + eapply step_no_deadlock; eauto.
+Qed.
+
+Lemma work_share_chunks n T : (1 <= n)%nat -> (1 <= T)%nat ->
+  let '(ipt, tc) := work_share n T in
+  (1 <= tc)%nat /\ forall i, (i < tc)%nat -> (ipt * i < n)%nat.
+Proof.
+  intros Hn HT. unfold work_share.
+  set (m := Nat.min n T). assert (Hm : (1 <= m <= n)%nat) by (unfold m; lia).
+  set (ipt := Nat.div (n + m - 1) m).
+  assert (Hipt : (1 <= ipt)%nat).
+  { unfold ipt. apply Nat.div_le_lower_bound; lia. }
+  set (tc := Nat.div (n + ipt - 1) ipt).
+  assert (Htc : (1 <= tc)%nat) by (unfold tc; apply Nat.div_le_lower_bound; lia).
+  split; [exact Htc|]. intros i Hi.
+  assert (Hle : (ipt * tc <= n + ipt - 1)%nat) by (unfold tc; apply Nat.mul_div_le; lia).
+  nia.
+Qed.
+
+Lemma config_of_wf g vw p0 T cap : graph_ok g -> length vw = length g -> length p0 = length g ->
+  (1 <= length g)%nat -> (1 <= T)%nat -> config_wf (config_of headroom_quot g vw p0 T cap).
+Proof.
+  intros Hg Hvw Hp Hn HT. unfold config_of.
+  pose proof (work_share_chunks (length p0) T) as Hws. rewrite Hp in Hws. specialize (Hws Hn HT).
+  rewrite Hp. destruct (work_share (length g) T) as [ipt tc]. destruct Hws as [Htc Hch].
+  split; cbn [cf_g cf_vw cf_k cf_ipt cf_tc cf_hr]; auto.
+  - apply (go_range _ Hg).
+  - unfold part_count. lia.
+  - discriminate.
+Qed.
